@@ -1330,6 +1330,15 @@ pub fn run(ctx: &Ctx) -> i32 {
                 // const-sized arrays etc.: still feed soup
                 let s = soup(&mut rng, LIT_ALPHABET, 12);
                 f.push(Input { class: "literal: token soup", origin: b.origin.clone(), kind: 'L', compile: false, text: frame(&s) });
+                // const-sized parameter types: repeat forms whose count is a word of the program
+                for _ in 0..4 {
+                    let (ws, we) = *rng.pick(&b.toks);
+                    let w = &b.src[ws..we];
+                    if w.bytes().all(|c| c.is_ascii_alphanumeric() || c == b'_') {
+                        let elem = *rng.pick(&["true", "0", "1u8", "(0, 0)", "[0; 2]"]);
+                        f.push(Input { class: "literal: repeat count / shorthand field naming a word of the program", origin: b.origin.clone(), kind: 'L', compile: false, text: frame(&format!("[{elem}; {w}]")) });
+                    }
+                }
                 continue;
             };
             f.push(Input { class: "literal: valid text", origin: b.origin.clone(), kind: 'L', compile: false, text: frame(&valid) });
@@ -1347,6 +1356,28 @@ pub fn run(ctx: &Ctx) -> i32 {
                 }
                 let a = rng.pick(LIT_ALPHABET);
                 f.push(Input { class: "literal: token substitution", origin: b.origin.clone(), kind: 'L', compile: false, text: frame(&splice(&valid, *s, *e, a)) });
+                // by a word of the program (names of consts, types, fields, functions, variables)
+                if !b.toks.is_empty() {
+                    let (ws, we) = *rng.pick(&b.toks);
+                    let w = &b.src[ws..we];
+                    if w.bytes().all(|c| c.is_ascii_alphanumeric() || c == b'_') {
+                        f.push(Input { class: "literal: token substitution by a word of the program", origin: b.origin.clone(), kind: 'L', compile: false, text: frame(&splice(&valid, *s, *e, w)) });
+                    }
+                }
+            }
+            // repeat / struct-shorthand forms naming a word of the program: `[lit; WORD]`, `Name { WORD }`
+            if !b.toks.is_empty() {
+                let (ws, we) = *rng.pick(&b.toks);
+                let w = &b.src[ws..we];
+                if w.bytes().all(|c| c.is_ascii_alphanumeric() || c == b'_') {
+                    f.push(Input { class: "literal: repeat count / shorthand field naming a word of the program", origin: b.origin.clone(), kind: 'L', compile: false, text: frame(&format!("[{valid}; {w}]")) });
+                    f.push(Input { class: "literal: repeat count / shorthand field naming a word of the program", origin: b.origin.clone(), kind: 'L', compile: false, text: frame(&format!("[true; {w}]")) });
+                    let (ws2, we2) = *rng.pick(&b.toks);
+                    let w2 = &b.src[ws2..we2];
+                    if w2.bytes().all(|c| c.is_ascii_alphanumeric() || c == b'_') {
+                        f.push(Input { class: "literal: repeat count / shorthand field naming a word of the program", origin: b.origin.clone(), kind: 'L', compile: false, text: frame(&format!("{w} {{ {w2} }}")) });
+                    }
+                }
             }
             let s = soup(&mut rng, LIT_ALPHABET, 12);
             f.push(Input { class: "literal: token soup", origin: b.origin.clone(), kind: 'L', compile: false, text: frame(&s) });
